@@ -2,7 +2,7 @@
 
 use super::Mesh;
 use crate::{Point3, Result};
-use std::collections::{HashMap, HashSet};
+use std::collections::HashMap;
 
 pub struct MeshEdges<'a> {
     /// The original mesh associated with the edge structure
@@ -135,30 +135,39 @@ pub fn unique_edges(all_edges: &[[u32; 2]]) -> Vec<([u32; 2], usize)> {
     unique_count
 }
 
-fn boundary_loops(boundary_map: HashMap<u32, u32>) -> Vec<Vec<u32>> {
+/// Walks the directed boundary edges into closed vertex cycles, using every edge exactly once. A
+/// vertex may have more than one outgoing boundary edge (faces touching at a single vertex), so
+/// the successors are kept in a list and consumed as they are used. Fails if a walk cannot be
+/// closed, which happens only when the boundary edges are not consistently directed.
+fn boundary_loops(mut boundary_map: HashMap<u32, Vec<u32>>) -> Result<Vec<Vec<u32>>> {
     let mut all_loops = Vec::new();
-    let mut working = Vec::new();
-    let mut queue: HashSet<u32> = boundary_map.keys().copied().collect();
 
-    while !queue.is_empty() {
-        if let Some(last_id) = working.last() {
-            let next_id = boundary_map[last_id];
-            queue.remove(&next_id);
+    while let Some(&start_id) = boundary_map.keys().next() {
+        let mut working = vec![start_id];
+        loop {
+            let last_id = *working.last().unwrap();
+            let next_id = match boundary_map.get_mut(&last_id) {
+                Some(successors) => {
+                    let next_id = successors.pop().unwrap();
+                    if successors.is_empty() {
+                        boundary_map.remove(&last_id);
+                    }
+                    next_id
+                }
+                None => return Err("Inconsistently directed boundary edges detected".into()),
+            };
 
-            if *working.first().unwrap() == next_id {
-                working.reverse();
-                all_loops.push(working);
-                working = Vec::new();
-            } else {
-                working.push(next_id);
+            if next_id == start_id {
+                break;
             }
-        } else {
-            let start_id = *queue.iter().next().unwrap();
-            working.push(start_id);
+            working.push(next_id);
         }
+
+        working.reverse();
+        all_loops.push(working);
     }
 
-    all_loops
+    Ok(all_loops)
 }
 
 fn identify_edges(faces: &[[u32; 3]]) -> Result<(Vec<[u32; 2]>, Vec<[u32; 3]>, Vec<Vec<u32>>)> {
@@ -185,7 +194,7 @@ fn identify_edges(faces: &[[u32; 3]]) -> Result<(Vec<[u32; 2]>, Vec<[u32; 3]>, V
         .collect();
 
     // Let's remap the face edges to the unique edges and build the boundary map at the same time
-    let mut boundary_map = HashMap::new();
+    let mut boundary_map: HashMap<u32, Vec<u32>> = HashMap::new();
     let mut face_edges = Vec::new();
     for face_chunk in direct_edges.chunks(3) {
         let i0 = to_unique_index[&edge_key(&face_chunk[0])];
@@ -194,17 +203,17 @@ fn identify_edges(faces: &[[u32; 3]]) -> Result<(Vec<[u32; 2]>, Vec<[u32; 3]>, V
         face_edges.push([i0 as u32, i1 as u32, i2 as u32]);
 
         if unique_edge_count[i0].1 == 1 {
-            boundary_map.insert(face_chunk[0][0], face_chunk[0][1]);
+            boundary_map.entry(face_chunk[0][0]).or_default().push(face_chunk[0][1]);
         }
         if unique_edge_count[i1].1 == 1 {
-            boundary_map.insert(face_chunk[1][0], face_chunk[1][1]);
+            boundary_map.entry(face_chunk[1][0]).or_default().push(face_chunk[1][1]);
         }
         if unique_edge_count[i2].1 == 1 {
-            boundary_map.insert(face_chunk[2][0], face_chunk[2][1]);
+            boundary_map.entry(face_chunk[2][0]).or_default().push(face_chunk[2][1]);
         }
     }
 
-    let loops = boundary_loops(boundary_map);
+    let loops = boundary_loops(boundary_map)?;
     let edges = unique_edge_count.iter().map(|(edge, _)| *edge).collect();
 
     Ok((edges, face_edges, loops))
